@@ -23,9 +23,16 @@ type c04Case struct {
 	Digits int    `json:"digits"`
 	Algo   int    `json:"algo"`
 	Nil    bool   `json:"nil_param"`
+	AppDef int    `json:"application_assigned_defaults,omitempty"` // see C03
 }
 
 func callValidateTOTP(c c04Case) (ok bool, err error, panicked string) {
+	if c.AppDef > 0 {
+		sh, st := *otp.DefaultHOTPParam, *otp.DefaultTOTPParam
+		v := c03Defaults[(c.AppDef-1)%len(c03Defaults)]
+		*otp.DefaultHOTPParam, *otp.DefaultTOTPParam = v[0], v[1]
+		defer func() { *otp.DefaultHOTPParam, *otp.DefaultTOTPParam = sh, st }()
+	}
 	nsecs := []int64{0, 1, 500000000, 999999999}
 	ic := c02Case{Unix: c.Unix, Nsec: nsecs[c.Var%4], Loc: (c.Var / 4) % 4, Mono: c.Var >= 16}
 	if c.Var >= 100 { // 100+i: the instant carried in zone i of c02Locs (real zones with daylight saving)
@@ -70,6 +77,10 @@ func totpValidate(c c04Case, key []byte, window []string, pairMode bool) (obs, b
 	d, a, s, per := c.Digits, c.Algo, c.Skew, c.Period
 	if c.Nil {
 		d, a, s, per = 6, 0, 0, 30
+		if c.AppDef > 0 {
+			v := c03Defaults[(c.AppDef-1)%len(c03Defaults)][1]
+			d, a, s, per = int(v.Digits), int(v.Algorithm), uint64(v.Skew), uint64(v.Period)
+		}
 	}
 	if pairMode {
 		if ps := pairShape(ok, err); ps != "" {
@@ -167,16 +178,28 @@ func c04(r *ev.Run, pairMode bool) {
 		var cs []c04Case
 		for _, t := range []int64{1111111109, 20000000000} {
 			for dist := int64(-3); dist <= 3; dist++ {
-				cs = append(cs, c04Case{sp, ref.HOTP(k, ref.Step(t+30*dist, 30), 6, 0), t, 0, 30, 2, 6, 0, false})
+				cs = append(cs, c04Case{sp, ref.HOTP(k, ref.Step(t+30*dist, 30), 6, 0), t, 0, 30, 2, 6, 0, false, 0})
 			}
-			cs = append(cs, c04Case{sp, ref.HOTP(k, ref.Step(t, 60), 8, 1), t, 1, 60, 0, 8, 1, false}, c04Case{sp, "000000", t, 0, 0, 10, 6, 0, false}, c04Case{Secret: sp, Code: ref.HOTP(k, ref.Step(t, 30), 6, 0), Unix: t, Nil: true})
+			cs = append(cs, c04Case{sp, ref.HOTP(k, ref.Step(t, 60), 8, 1), t, 1, 60, 0, 8, 1, false, 0}, c04Case{sp, "000000", t, 0, 0, 10, 6, 0, false, 0}, c04Case{Secret: sp, Code: ref.HOTP(k, ref.Step(t, 30), 6, 0), Unix: t, Nil: true})
+		}
+		// application-assigned defaults: ValidateTOTP(nil) uses the TOTP default's digits, hash, period and window
+		for v := 1; v <= len(c03Defaults); v++ {
+			dv := c03Defaults[v-1][1]
+			t := int64(1111111109)
+			for dist := int64(-11); dist <= 11; dist++ {
+				if dist < -4 && dist > -10 || dist > 4 && dist < 10 {
+					continue
+				}
+				cs = append(cs, c04Case{Secret: sp, Code: ref.HOTP(k, uint64(int64(ref.Step(t, uint64(dv.Period)))+dist), int(dv.Digits), int(dv.Algorithm)), Unix: t, Nil: true, AppDef: v})
+			}
+			cs = append(cs, c04Case{Secret: sp, Code: ref.HOTP(k, ref.Step(t, 30)+1, 6, 0), Unix: t, Period: 30, Skew: 1, Digits: 6, Algo: 0, AppDef: v})
 		}
 		afterWarmups(r, "totp-validate-after-other-operations", cs, func(c c04Case) (string, string) { return totpValidate(c, k, nil, pairMode) })
 	}
 	volume(r, "totp-validate-volume", 1100, func(k int) c04Case {
 		key := []byte(fmt.Sprintf("volume-key-%04d-0123456789abcdefghij", k/2))[:10+(k/2*7)%27]
 		t := int64(1111111109 + k*31)
-		return c04Case{ref.B32Encode(key), ref.HOTP(key, ref.Step(t, 30)+uint64(k%4), 6, k%3), t, 0, 30, uint64(k % 3), 6, k % 3, false}
+		return c04Case{ref.B32Encode(key), ref.HOTP(key, ref.Step(t, 30)+uint64(k%4), 6, k%3), t, 0, 30, uint64(k % 3), 6, k % 3, false, 0}
 	}, func(c c04Case) (string, string) {
 		_, key := ref.B32Classify(c.Secret)
 		return totpValidate(c, key, nil, pairMode)
@@ -269,7 +292,7 @@ func c04(r *ev.Run, pairMode bool) {
 					window := totpWindow(key, step, sk, 6, a)
 					subs := append([]string{ref.HOTP(key, step-sk-1, 6, a), ref.HOTP(key, step+sk+1, 6, a)}, window...)
 					for _, code := range subs {
-						c := c04Case{sec, code, t, L % 4, 30, sk, 6, a, false}
+						c := c04Case{sec, code, t, L % 4, 30, sk, 6, a, false, 0}
 						obs, bad := totpValidate(c, key, window, pairMode)
 						local++
 						if bad != "" {
@@ -299,7 +322,7 @@ func c04(r *ev.Run, pairMode bool) {
 		}
 		var local int64
 		for _, code := range submissions(around, window, g.d) {
-			c := c04Case{g.sec, code, g.t, g.v, g.p, g.s, g.d, g.a, false}
+			c := c04Case{g.sec, code, g.t, g.v, g.p, g.s, g.d, g.a, false, 0}
 			obs, bad := totpValidate(c, g.key, window, pairMode)
 			local++
 			if bad != "" {
@@ -320,7 +343,7 @@ func c04(r *ev.Run, pairMode bool) {
 			var local int64
 			for t := int64(1672531200); t < 1672531200+366*86400; t += 1800 { // from 2023-01-01 UTC
 				for k, dist := range []uint64{0, 2} {
-					c := c04Case{sec, ref.HOTP(key, ref.Step(t, 30)+dist, 6, 0), t, 100 + li, 30, 1, 6, 0, false}
+					c := c04Case{sec, ref.HOTP(key, ref.Step(t, 30)+dist, 6, 0), t, 100 + li, 30, 1, 6, 0, false, 0}
 					obs, bad := totpValidate(c, key, nil, pairMode)
 					local++
 					if bad != "" {
@@ -364,7 +387,7 @@ func c04(r *ev.Run, pairMode bool) {
 		var local int64
 		acc := 0
 		for v := 0; v < n; v++ {
-			c := c04Case{g.sec, fmt.Sprintf("%0*d", g.d, v), g.t, g.v, g.p, g.s, g.d, g.a, false}
+			c := c04Case{g.sec, fmt.Sprintf("%0*d", g.d, v), g.t, g.v, g.p, g.s, g.d, g.a, false, 0}
 			obs, bad := totpValidate(c, g.key, window, pairMode)
 			local++
 			if bad != "" {
@@ -382,7 +405,7 @@ func c04(r *ev.Run, pairMode bool) {
 	{
 		k0, k1 := keys[0], keys[1]
 		s0, s1 := spellings(k0)[0], spellings(k1)[0]
-		base := c04Case{s0, ref.HOTP(k0, ref.Step(1111111109, 30), 6, 0), 1111111109, 0, 30, 1, 6, 0, false}
+		base := c04Case{s0, ref.HOTP(k0, ref.Step(1111111109, 30), 6, 0), 1111111109, 0, 30, 1, 6, 0, false, 0}
 		fam := []struct {
 			c   c04Case
 			key []byte
@@ -440,7 +463,7 @@ func c04(r *ev.Run, pairMode bool) {
 	for _, s := range []uint64{11, 12, 255, 1 << 32, 1 << 63, ^uint64(0)} {
 		for _, p := range []uint64{0, 30, 1} {
 			for _, code := range []string{"000000", ref.HOTP(keys[0], ref.Step(1000000, p), 6, 0), ref.HOTP(keys[0], ref.Step(1000000, p)+11, 6, 0)} {
-				cs := c04Case{sec0, code, 1000000, 0, p, s, 6, 0, false}
+				cs := c04Case{sec0, code, 1000000, 0, p, s, 6, 0, false, 0}
 				n := countDerivations(func() { callValidateTOTP(cs) })
 				wn++
 				if n != 0 {
@@ -457,7 +480,7 @@ func c04(r *ev.Run, pairMode bool) {
 	}
 	for s := uint64(0); s <= 10; s++ {
 		for _, d := range []int{1, 6, 10} {
-			cs := c04Case{sec0, ref.Format(0, d)[:d-1] + "x", 5000, 0, 30, s, d, 2, false}
+			cs := c04Case{sec0, ref.Format(0, d)[:d-1] + "x", 5000, 0, 30, s, d, 2, false, 0}
 			n := countDerivations(func() { callValidateTOTP(cs) })
 			wn++
 			if n > int64(2*s+1) {
@@ -470,7 +493,7 @@ func c04(r *ev.Run, pairMode bool) {
 		for dist := int64(-2); dist <= 2; dist++ {
 			for _, d := range []int{6, 8} {
 				for a := 0; a < 2; a++ {
-					cs := c04Case{sec0, ref.HOTP(keys[0], uint64(t/30+dist), d, a), t, int(t % 32), 0, 0, 0, 0, true}
+					cs := c04Case{sec0, ref.HOTP(keys[0], uint64(t/30+dist), d, a), t, int(t % 32), 0, 0, 0, 0, true, 0}
 					obs, bad := totpValidate(cs, keys[0], nil, pairMode)
 					wn++
 					if bad != "" {
@@ -482,8 +505,8 @@ func c04(r *ev.Run, pairMode bool) {
 	}
 	r.Eval(wn)
 	if !pairMode {
-		r.Sample(map[string]any{"case": c04Case{sec0, ref.HOTP(keys[0], ref.Step(1000000, 30)+11, 6, 0), 1000000, 0, 30, 11, 6, 0, false}, "want": "(false, error), zero derivations"})
-		r.Sample(map[string]any{"case": c04Case{sec0, ref.HOTP(keys[0], 4, 8, 1), 89, 5, 0, 2, 8, 1, false}, "want": true, "note": "period 0 = 30; step 2, window 0..4"})
+		r.Sample(map[string]any{"case": c04Case{sec0, ref.HOTP(keys[0], ref.Step(1000000, 30)+11, 6, 0), 1000000, 0, 30, 11, 6, 0, false, 0}, "want": "(false, error), zero derivations"})
+		r.Sample(map[string]any{"case": c04Case{sec0, ref.HOTP(keys[0], 4, 8, 1), 89, 5, 0, 2, 8, 1, false, 0}, "want": true, "note": "period 0 = 30; step 2, window 0..4"})
 		r.Set("alphabet", map[string]any{"periods": "0,1,29,30,31,3600,2^32", "steps": "s, s+1, s+3, 10^6, top-s; offsets 0,1,p-1 inside the step", "skew": "0..10 and refused 11,12,255,2^32,2^63,2^64-1", "digits": digs, "hash": "0..2", "submitted": "as C03 with distances in time steps; complete code space for digits <= 4 (thorough: 5, 6 too)"})
 		r.Rule("every (secret, period, instant, skew, digits, hash) configuration x every submitted string through ValidateTOTP; oracle = exact membership in the reference step-window set; refused skews: (false, error) and zero derivations; accepted: <= 2s+1 derivations (counted at the HMAC constructor seam); distinct = distinct (config, string, verdict) tuples at 6 digits plus acceptance counts of complete code spaces")
 		r.Assume("crypto/hmac; windows lie at or after step 0 and below 2^62 as the property states")
